@@ -44,5 +44,13 @@ def queries(tier):
             Q('h_object', {nm['parseValue']: 'stub_parseValue', nm['UnEscape']: 'stub_unescape'})
             Q('h_unescape', {})
             Q('h_number', {nm['powN']: 'stub_pow', nm['powP']: 'stub_pow'})
+        if tier == 'quick' and ch == 'char':
+            # a \uXXXX escape needs 6 units: the un-escaper alone is cheap, so the quick tier reaches the surrogate look-ahead too
+            for L in (6, 7):
+                b = {'TrimLeft|parseArray|parseObject|UnEscape|Write|stringToNumber|parseExponent|vf_buf.*': L + 1, 'HexStringToNumber': 5,
+                     'parseValue': 6, 'Insert': 4, 'Array|HArray|Value|ShapeChild|any_value|stub_.*': 4}
+                d = {'L': L, 'CHAR': ch}
+                qs.append(Query('h_unescape/%s/L%d' % (ch, L), 'C05_json.cpp', 'h_unescape', d, bounds=b, stubs={}, cflags=['-Dprotected=public'], timeout=600,
+                                replay=('C05_lift.cpp', 'lift_string')))
     return qs
 
